@@ -176,14 +176,19 @@ def handler : Handler := fun scn => do
     (⟨str j "kind", str j "name", str j "annot", str j "ctrl", nat j "content", objConn.lookup (str j "name")⟩ : CObj)
   let cluster := (arr scn "cluster").map fun j => (⟨str j "kind", str j "name", kvsOf j "labels"⟩ : ClusterObj)
   -- the value of key k of Secret n is "n:k" (harness/main/c04.go)
+  -- a Secret is identified by namespace AND name: key "name" in the default namespace, "ns/name" elsewhere
+  let secKey (ns name : String) : String := if ns == "" || ns == "creds" then name else s!"{ns}/{name}"
   let secrets : SecretStore :=
-    ⟨(arr scn "secrets").map fun j => (str j "name", ((strs j "keys").mergeSort (· ≤ ·)).map fun k => (k, s!"{str j "name"}:{k}")),
-     strs scn "failGet"⟩
+    ⟨(arr scn "secrets").map fun j =>
+        let key := secKey (str j "ns") (str j "name")
+        (key, ((strs j "keys").mergeSort (· ≤ ·)).map fun k => (k, s!"{key}:{k}")),
+     -- an unreadable Secret name is unreadable in every namespace
+     (strs scn "failGet").flatMap fun n => [n, secKey "other" n]⟩
   let stepsJ := arr scn "steps"
   let xsteps : List XStep := stepsJ.zipIdx.map fun (j, i) =>
     { name := s!"s{i}", fn := evalRules ((arr j "rules").map ruleOf),
       input := if bool j "badInput" then some none else if str j "input" == "" then none else some (some (str j "input")),
-      creds := (arr j "creds").map fun c => ⟨str c "name", str c "src" != "none", if bool c "noRef" then none else some (str c "secret")⟩ }
+      creds := (arr j "creds").map fun c => ⟨str c "name", str c "src" != "none", if bool c "noRef" then none else some (secKey (str c "ns") (str c "secret"))⟩ }
   let fnNames := stepsJ.map fun j => str j "fn"
   let emptyOut (err : Bool) := Json.mkObj [("reqs", Json.arr #[]), ("err", .bool err), ("events", Json.arr #[]),
       ("conds", Json.arr #[]), ("desired", Json.arr #[]), ("xrReady", .str "unset"), ("writes", .num 0)]
